@@ -4,18 +4,18 @@ CONSTANTS
   TocC <- TocShort
   VarAlpha <- AlphaEvolve
   BasicAlpha <- BasicOne
-  MaxFree = 3
+  MaxFree = 1
   MaxBasic = 1
   MaxUniform = 1
   Periods = {100}
   Statuses = {}
-  MaxOps = 3
+  MaxOps = 5
   MaxFaults = 0
   MaxData = 2
-  MaxLate = 0
+  MaxLate = 1
   TocAlts <- TocLonger
   IdMod = 255
-  Bugs = {"partial_resolve"}
+  Bugs <- NoBugs
   WithSync = FALSE
 INVARIANT ObsOK
 INVARIANT TypeOK
